@@ -167,7 +167,11 @@ Proof.
   - inversion H; subst. constructor.
   - rewrite Htl in H. inversion Hf as [|? ? Hir Hrest]; subst.
     destruct (match ir_kind ir with RAudio => if idx =? 0 then true else false | _ => true end) eqn:Eown.
-    + destruct (ir_tab ir) as [t|] eqn:Etab; [|discriminate].
+    + destruct (ir_tab ir) as [t|] eqn:Etab.
+      2:{ destruct (ir_kind ir); try discriminate. destruct (ref0tab cf); try discriminate.
+          destruct (idx =? 0); try discriminate.
+          match type of H with (do tl <- ?X ; _) = _ => destruct X as [tl| |] eqn:E; cbn [bind] in H; try discriminate end.
+          inversion H; subst. constructor; [reflexivity|]. eapply IH; eassumption. }
       assert (Hok : match ir_kind ir with RAudio => true | _ => lookup_ok t cf ByTime (timeOfRep cf t now) now end = true).
       { destruct (ir_kind ir) eqn:Ek; [apply Hir; [discriminate|reflexivity]|reflexivity|apply Hir; [discriminate|reflexivity]]. }
       rewrite Hok in H. replace (if idx =? 0 then true else true) with true in H by (destruct (idx =? 0); reflexivity).
